@@ -93,3 +93,22 @@ CASES += [
         (P, "            self.dt = self.Odt\n            self.Nref = 1", "            self.dt = self.Odt\n            self.Nref = 1\n            self._HHcache = self.Hamiltonian.data", 1),
         (P, "        HH = self._INIT_RWA()\n            \n        RR = self.RelaxationTensor.data", "        HH = self._HHcache\n            \n        RR = self.RelaxationTensor.data", 1)]},
 ]
+
+DME = "quantarhei/qm/propagators/dmevolution.py"
+CASES += [
+    {"name": "propagate() no longer runs the propagation under internal units (the repaired defect)", "kind": "mutant", "rule": "C02-H", "edits": [
+        (P, "        with energy_units(\"int\"):\n            return self._propagate(rhoi, method=method, mdata=mdata,\n                                   Nref=Nref)",
+         "        if True:\n            return self._propagate(rhoi, method=method, mdata=mdata,\n                                   Nref=Nref)", 1)]},
+    {"name": "state vector propagation outside internal units (the repaired defect)", "kind": "mutant", "rule": "C02-H", "edits": [
+        (S, "        with energy_units(\"int\"):\n            # The rotating frame is tied to absolute time.", "        if True:\n            # The rotating frame is tied to absolute time.", 1)]},
+    {"name": "frame frequencies read in the caller's units when converting back (the repaired defect)", "kind": "mutant", "rule": "C02-H", "edits": [
+        (DME, "            with energy_units(\"int\"):\n                HOmega = ham.get_RWA_skeleton()", "            if True:\n                HOmega = ham.get_RWA_skeleton()", 1)]},
+    {"name": "a second public entry calls the propagation proper without protection", "kind": "mutant", "rule": "C02-H", "edits": [
+        (P, "    def _propagate(self, rhoi, method=\"short-exp\", mdata=None, Nref=1):",
+         "    def propagate_again(self, rhoi):\n        return self._propagate(rhoi)\n\n    def _propagate(self, rhoi, method=\"short-exp\", mdata=None, Nref=1):", 1)]},
+    {"name": "dimension taken from the units-managed data outside any block (no number is read)", "kind": "twin", "edits": [
+        (S, "        N = self.ham.data.shape[0]", "        HH = self.ham.data\n        N = HH.shape[0]", 1)]},
+    {"name": "frame frequencies read in a block of their own before the guard", "kind": "twin", "edits": [
+        (DME, "        if (self.is_in_rwa and sgn == 1) or sgn == -1:\n            \n            # the frame frequencies multiply times in femtoseconds\n            with energy_units(\"int\"):\n                HOmega = ham.get_RWA_skeleton()\n",
+         "        with energy_units(\"int\"):\n            HOmega = ham.get_RWA_skeleton()\n        if (self.is_in_rwa and sgn == 1) or sgn == -1:\n", 1)]},
+]
